@@ -146,6 +146,8 @@ pub struct HOp {
     pub op: Op,
 }
 
+static INTRUDER_COUNTER: std::sync::atomic::AtomicU64 = std::sync::atomic::AtomicU64::new(0);
+
 #[derive(Clone, Debug, Serialize, Deserialize)]
 pub struct Saver {
     /// "shared": saves the base workbook through a shared reference; "clone": saves its own clone
@@ -275,12 +277,44 @@ fn scenario(case: &Value, res: &Arc<Mutex<Option<Results>>>) {
         let light = s.light;
         handles.push(shuttle::thread::spawn(move || world::save_mem(&b, light)));
     }
+    // an extra saver that goes through another entry point of the library at the same time (its own output
+    // is the business of C13/C14; here it only has to leave the other savers alone, and to come back)
+    let intruder = case["intruder"].as_str().unwrap_or("none").to_string();
+    let intruder_handle = if intruder != "none" {
+        let b = base.clone();
+        let dir = case["__scratch"].as_str().unwrap_or("/verif/scratch").to_string();
+        let id = INTRUDER_COUNTER.fetch_add(1, std::sync::atomic::Ordering::Relaxed);
+        Some(shuttle::thread::spawn(move || -> Result<(), String> {
+            match intruder.as_str() {
+                "pw" => {
+                    let p = format!("{}/c16-intruder-{}-{}.xlsx", dir, std::process::id(), id);
+                    let r = umya::writer::xlsx::write_with_password(&b, std::path::Path::new(&p), "pw").map_err(|e| format!("{:?}", e));
+                    let _ = std::fs::remove_file(&p);
+                    r
+                }
+                "csv" => {
+                    let mut c = std::io::Cursor::new(Vec::new());
+                    umya::writer::csv::write_writer(&b, &mut c, &umya::structs::CsvWriterOption::default()).map_err(|e| format!("{:?}", e))
+                }
+                _ => world::save_mem(&b, true).map(|_| ()),
+            }
+        }))
+    } else {
+        None
+    };
     let mut files = Vec::new();
     for h in handles {
         files.push(match h.join() {
             Ok(r) => r,
             Err(_) => Err("saver thread panicked".to_string()),
         });
+    }
+    if let Some(h) = intruder_handle {
+        match h.join() {
+            Ok(Ok(())) => {}
+            Ok(Err(e)) => files.push(Err(format!("the saver using another entry point failed: {}", e))),
+            Err(_) => files.push(Err("the saver using another entry point panicked".to_string())),
+        }
     }
     TRACING.with(|t| t.set(false));
     let table_ops = TABLE_OPS.with(|o| o.borrow().clone());
@@ -311,7 +345,10 @@ fn redirect_sheet(op: &mut Op, raw_idx: usize) {
     }
 }
 
-pub fn execute(case: &Value, _scratch: &str) -> Outcome {
+pub fn execute(case: &Value, scratch: &str) -> Outcome {
+    let mut case_with_dir = case.clone();
+    case_with_dir["__scratch"] = json!(scratch);
+    let case = &case_with_dir;
     let mode = case["sched"]["mode"].as_str().unwrap_or("random").to_string();
     if mode == "search" {
         // used by the minimiser: look for a failing schedule among `tries` seeds
@@ -378,6 +415,11 @@ fn execute_once(case: &Value) -> Outcome {
     let clone_ops: Vec<HOp> = serde_json::from_value(case["clone_ops"].clone()).unwrap_or_default();
     let lazy = case["reload"].as_str() == Some("lazy");
     if let Some(r) = &results {
+        if let Some(Err(e)) = r.files.get(savers.len()) {
+            if run.is_ok() {
+                out.violate(Verdict::new("C16", "C16:save-failed", &[("savers", &n_savers), ("who", "other-entry-point")], e.clone()));
+            }
+        }
         for (j, s) in savers.iter().enumerate() {
             let file = match &r.files[j] {
                 Ok(f) => f,
@@ -561,6 +603,15 @@ pub fn cases(run_seed: u64, tier: &str, _scratch: &str) -> Vec<Value> {
     base["reload"] = json!(reload);
     base["mode"] = json!(mode);
     base["overlap"] = json!(overlap);
+    // a password save costs three 100000-round key derivations: rare
+    // (csv export reads the active sheet through the getters, which a lazily loaded workbook does not allow
+    // before read_sheet: an API precondition, not a race)
+    base["intruder"] = json!(match sw.usize(16) {
+        0 => "pw",
+        1 | 2 if reload != "lazy" => "csv",
+        1..=4 => "light",
+        _ => "none",
+    });
     let nsched = if tier == "thorough" { 48 } else { 16 };
     let mut out = Vec::new();
     for k in 0..nsched {
